@@ -186,6 +186,10 @@ func (k Keeper) DecodeDepositReportValue(ctx context.Context, reportValue string
 	}
 	amountDecimalConverted := amountBigInt.Div(amountBigInt, big.NewInt(1e12))
 	tipDecimalConverted := tipBigInt.Div(tipBigInt, big.NewInt(1e12))
+	// Int64() keeps only the low 64 bits: an amount of (2^64+5)*10^12 would mint 5 loya instead of what was reported
+	if !amountDecimalConverted.IsInt64() || !tipDecimalConverted.IsInt64() {
+		return nil, sdk.Coins{}, sdk.Coins{}, fmt.Errorf("deposit amount or tip does not fit into 64 bits")
+	}
 	amountCoin := sdk.NewInt64Coin(layer.BondDenom, amountDecimalConverted.Int64())
 	amountCoins := sdk.NewCoins(amountCoin)
 	tipCoin := sdk.NewInt64Coin(layer.BondDenom, tipDecimalConverted.Int64())
